@@ -337,6 +337,19 @@ def r5(ctx):
     idx = top.index(top_stmt)
     pre = ast.FunctionDef(name="_pre", args=f.node.args, decorator_list=[], lineno=0, col_offset=0,
                           body=top[:idx] + [ast.Return(value=ast.Tuple(elts=[wired.get("n_observed_plates", ast.Constant(value=None)), wired["n_unobserved_plates"]], ctx=ast.Load()))])
+    # recognised wrong: plates counted as *runs* of equal ids (`ids[1:] != ids[:-1]`) of a column that was not sorted first: the rows of
+    # one plate need not be adjacent, so a plate is counted once per run
+    fenv = single_defs(f.node)
+    for cmp_ in [n for n in ast.walk(f.node) if isinstance(n, ast.Compare) and len(n.ops) == 1 and isinstance(n.ops[0], (ast.NotEq, ast.Eq))]:
+        l_, r_ = cmp_.left, cmp_.comparators[0]
+        if isinstance(l_, ast.Subscript) and isinstance(r_, ast.Subscript) and U(l_.value) == U(r_.value) \
+                and {U(l_.slice).replace(" ", ""), U(r_.slice).replace(" ", "")} == {"1:", ":-1"}:
+            col = U(inline(l_.value, fenv)).replace(" ", "")
+            if "plate_ids" in col or "plate_names" in col:
+                if not any(t in col for t in ("np.sort(", "sorted(", "np.unique(")):
+                    ctx.bad("R5", f"{f.site()}::plates-counted-by-runs", f"plates are counted as runs of equal ids (`{U(cmp_)}`) of `{col[:60]}`, which is not sorted: "
+                            f"a plate whose rows are interleaved with other plates is counted once per run, so observed + unobserved != number of plates")
+                    return
     try:
         ps = B.paths(pre)
     except B.Unsupported as e:
